@@ -109,6 +109,8 @@ def axis_coords(draw, n, steps=(1, 0.5, 2, 0.1, 0.3, 2.5, 30), offsets=(0, 10.7,
 
 def mk_axis(spec):
     a = spec["start"] + spec["step"] * np.arange(spec["n"], dtype="float64")
+    if spec.get("decimals") is not None:
+        a = np.round(a, spec["decimals"])   # rounded cell centres: labels may repeat
     return a[::-1].copy() if spec.get("desc") else a
 
 
@@ -122,8 +124,10 @@ def mk_da(spec, dims=("y", "x"), ycoord=None, xcoord=None, attrs=None, name=None
         a = da.from_array(a, chunks=chunks if chunks is not None else a.shape)
     h, w = a.shape[-2], a.shape[-1]
     coords = {}
-    coords[dims[-2]] = mk_axis(ycoord) if ycoord else np.arange(h, dtype="float64")
-    coords[dims[-1]] = mk_axis(xcoord) if xcoord else np.arange(w, dtype="float64")
+    if ycoord != "none":     # "none": a dimension without a coordinate variable
+        coords[dims[-2]] = mk_axis(ycoord) if ycoord else np.arange(h, dtype="float64")
+    if xcoord != "none":
+        coords[dims[-1]] = mk_axis(xcoord) if xcoord else np.arange(w, dtype="float64")
     return xr.DataArray(a, dims=dims, coords=coords, attrs=dict(attrs or {}), name=name)
 
 
